@@ -137,6 +137,10 @@ def check_trace(res, tr):
                 res.count("relocations")
                 nontrivial = True
                 moves_of.setdefault(cid, []).append((origin, dest))
+                if ev.get("holding") and not ev.get("working"):
+                    res.add("working", "C13.moved_after_a_task_got_its_workers_in_this_step." + ntag,
+                            "step %d: component %s was moved from %s to %s although its task(s) %s had already been given workers in "
+                            "this step and start WORKING in it" % (k, cid, origin, dest, ev["holding"]), k)
                 if ev.get("working"):
                     res.add("working", "C13.moved_while_task_WORKING." + ntag,
                             "step %d: component %s moved from %s to %s while one of its tasks is WORKING" % (k, cid, origin, dest), k)
